@@ -306,9 +306,10 @@ def long_pairs(run, seed):
     lnT, lnpi0, lnn = weights(S, d, e)
     orig = pairwise.HIRSCHBERG_LIMIT
     n = 0
-    for trial in range(2):
+    for trial in range(3):
         L = "".join(rnd.choice("ACGT") for _ in range(rnd.randrange(600, 800)))
-        R = "".join(rnd.choice("ACGT") for _ in range(len(L) - 1 + rnd.randrange(-2, 3)))
+        # the single-residue insert sits on / just before / just after the middle row of the first sequence
+        R = "".join(rnd.choice("ACGT") for _ in range(len(L) + 1 + (trial - 1)))
         a, b = L + "A" + R, L + "GA" + R     # the insert sits at the middle row of the first sequence
         hand = (L + "-A" + R, L + "GA" + R)  # the alignment by construction
         s1, s2 = make_seq(a, name="s1", moltype="dna"), make_seq(b, name="s2", moltype="dna")
